@@ -46,7 +46,7 @@ def configs(tier):
     out = []
     for i in range(8):
         out.append({"spake": "real" if i == 0 else "stub",
-                    "dilate": i % 4 == 3,
+                    "dilate": i % 4 == 3, "dilate_listen": i == 7,
                     "reorder_heavy": i % 2 == 1,
                     "fault_initial": i == 6,
                     "variant": ("same", "same", "welcome_error", "crowded",
@@ -116,7 +116,7 @@ def grammar(tape, c, code_ops, other, dilate, pairable=True):
             out.insert(tape.choose(len(out) + 1, "xpos"), op)
     if dilate and c.api == "deferred":
         out.insert(tape.choose(len(out) + 1, "dpos"),
-                   ("dilate", {"no_listen": True}))
+                   ("dilate", {"no_listen": not DILATE_LISTEN[0]}))
     # close somewhere: mostly late
     style = tape.choose(4, "cstyle")
     if style == 0 and pairable:
@@ -144,7 +144,11 @@ INTERNAL = ("NoTransition", "AssertionError", "AttributeError", "KeyError",
             "ZeroDivisionError")
 
 
+DILATE_LISTEN = [False]
+
+
 def run_one(seed, tape, opts):
+    DILATE_LISTEN[0] = bool(opts.get("dilate_listen"))
     variant = opts.get("variant", "same")
     welcome = {"error": "sim says no"} if variant == "welcome_error" else {}
     w = MailboxWorld(tape, opts, welcome=welcome)
